@@ -35,13 +35,15 @@ RULE = ('tolerances 1e-4..1e-13 (each basis/cloud gets one, all ten are used); b
         'interior multiplicities 1..p; parameters at 0 and +-{1/4,1/2,3/4,3/2,2}*tol around EVERY knot (ghost knots included) '
         'plus the float Greville points; vertex clouds with per-coordinate offsets of the same fractions of atol, rtol in '
         '{0,1e-5,1e-3}, set/get/del/setdefault/contains histories; state() nests of depth <= 3 with a raise inserted at every '
-        'position; settings snapshot around ~100 public API calls incl. every G2/SVG/SPL test file and a synthetic '
+        'position; object-level evaluate at tuples of fuzzed knots (op obj_eval of C02, pardim 1..3, also outside non-periodic ends); '
+        'Orientation.compute on nets perturbed by {0,1/2,3/4,3/2,2}*(atol+rtol|x|) in one coordinate; settings snapshot around ~100 public API calls incl. every G2/SVG/SPL test file and a synthetic '
         'bounded-surface G2 record.  distinct = distinct protocol lines; non-trivial = the tolerance decides the result '
         '(parameter/point within 2*tol of a knot/stored key), a nest that raises or assigns, a call that ran.')
 REQUIRED_TAGS = ['snap:within', 'snap:beyond', 'eval:within', 'eval:outside-end-within', 'validate:outside-end-within',
                  'validate:outside-end-beyond', 'continuity:within', 'continuity:beyond', 'periodic', 'open',
                  'vd:rtol=0', 'vd:rtol>0', 'vd:merge', 'vd:distinct', 'nest:raise-in-with', 'nest:depth>=2',
-                 'monitor:g2-read', 'greville', 'tol=1e-04', 'tol=1e-13']
+                 'monitor:g2-read', 'greville', 'tol=1e-04', 'tol=1e-13', 'obj:within-outside-end', 'obj:pardim=2',
+                 'orient:close', 'orient:far']
 ASSUMPTIONS = ['knot vectors used for the tolerance sweep have distinct knots separated by more than 4*tol (hypothesis of C20_snap / C20_continuity)',
                'the boundary case |t - knot| == tol exactly is excluded (as the property allows); the fractions used keep a margin of tol/4',
                'VertexDict: CPython set iteration order is not modelled; histories whose state-changing operations match two stored live keys are not generated']
@@ -105,7 +107,31 @@ def regenerate(sp, lean_dir):
     info = state_translate.regenerate(pkg, lean_dir)
     _GEN['info'] = info
     _GEN['defaults'] = [getattr(sp.state, n) for n in NAMES]
-    return {k: info[k] for k in ('prog', 'state_names', 'module_settings', 'write_sites', 'files_scanned', 'digest', 'notes')}
+    out = {k: info[k] for k in ('prog', 'state_names', 'module_settings', 'write_sites', 'files_scanned', 'digest', 'notes')}
+    out['settings_monitor_all_properties'] = _collect_settings_monitor()
+    return out
+
+
+def _collect_settings_monitor():
+    """Supporting evidence only: harness/check.py snapshots splipy.state around every run_impl call of
+    every property and records it in that property's evidence file (which may be stale)."""
+    import glob
+    import json
+    evdir = os.environ.get('VERIF_EVIDENCE_DIR') or os.path.join(os.path.dirname(os.path.dirname(os.path.dirname(os.path.abspath(__file__)))), 'evidence')
+    res = {'calls_monitored': 0, 'leaks': [], 'per_property': {}}
+    for f in sorted(glob.glob(os.path.join(evdir, 'C*.json'))):
+        try:
+            ev = json.load(open(f))
+            m = ev.get('coverage', {}).get('settings_monitor')
+        except Exception:  # noqa: BLE001
+            continue
+        if not m:
+            continue
+        pid = ev.get('property_id', os.path.basename(f)[:-5])
+        res['per_property'][pid] = {'calls_monitored': m.get('calls_monitored', 0), 'leaks': len(m.get('leaks', []))}
+        res['calls_monitored'] += m.get('calls_monitored', 0)
+        res['leaks'] += [{'property': pid, 'leak': x} for x in m.get('leaks', [])[:3]]
+    return res
 
 
 OBL_MODULE = 'Splipy.Generated.C20Obligations'
@@ -731,11 +757,65 @@ def _gen_monitor(rng, tier):
     return specs
 
 
+def _gen_objects(rng, tier):
+    """Object level: parameter tuples whose entries are fuzzed knots (also just outside the ends of
+    non-periodic directions) or generic points; control nets compared by Orientation.compute."""
+    specs = []
+    no = 24 if tier == 'quick' else 300
+    for oi in range(no):
+        tol = TOLS[oi % len(TOLS)]
+        o = gen.rand_object(rng, pardim=rng.choice([1, 1, 2, 2, 3]), pmax=3, max_interior=2, periodic_prob=0.3)
+        for rep_ in range(3 if tier == 'quick' else 4):
+            params, knots, beyond = [], [], False
+            for b in o['bases']:
+                info = gen.basis_info(b)
+                ks = [x for x in gen.distinct_knots(b) if info['k'] >= 0 or info['start'] <= x <= info['end']]
+                ps, qs = [], []
+                for _ in range(2):
+                    r = rng.random()
+                    x = rng.choice(ks)
+                    if r < 0.7:
+                        f = rng.choice([0.0, 0.25, -0.25, 0.5, -0.5, 0.75, -0.75])
+                        ps.append(x + f * tol)
+                        qs.append(x)
+                    elif r < 0.8 and rep_ == 2:
+                        f = rng.choice([1.5, -1.5, 2.0, -2.0])
+                        ps.append(x + f * tol)
+                        qs.append(x + f * tol)
+                        beyond = True
+                    else:
+                        y = rng.choice(ks)
+                        t = (x + y) / 2 if x != y else x
+                        ps.append(t)
+                        qs.append(t)
+                params.append(ps)
+                knots.append(qs)
+            specs.append({'kind': 'obj_eval', 'obj': o, 'tol': tol, 'params': params, 'knots': knots, 'beyond': beyond})
+    nr = 40 if tier == 'quick' else 300
+    for oi in range(nr):
+        atol = TOLS[oi % len(TOLS)]
+        rtol = 0.0 if oi % 3 != 2 else rng.choice([1e-5, 1e-3])
+        o = gen.rand_object(rng, pardim=rng.choice([1, 2, 2, 3]), pmax=3, max_interior=1, periodic_prob=0.0, rational=False)
+        n = int(np.prod(np.array(o['cps']).shape))
+        specs.append({'kind': 'orient', 'obj': o, 'rtol': rtol, 'atol': atol, 'idx': rng.randrange(n),
+                      'frac': rng.choice([0.0, 0.5, -0.5, 0.75, 2.0, -2.0, 1.5])})
+    return specs
+
+
+def _orient_nets(s):
+    a = np.array(s['obj']['cps'], dtype=float)
+    b = a.copy().reshape(-1)
+    x = b[s['idx']]
+    b[s['idx']] = x + s['frac'] * (s['atol'] + s['rtol'] * abs(x))
+    return a, b.reshape(a.shape)
+
+
 def generate(rng, tier):
     specs = []
     specs += _gen_nests(rng, tier)
     specs += _gen_monitor(rng, tier)
     specs += _gen_vertexdict(rng, tier)
+    specs += _gen_objects(rng, tier)
     specs += _gen_basis_cases(rng, tier)
     # the driver reports the first few failing inputs of a run: put the minimal experiment of every
     # class of global-state / configuration experiment first so that each one gets its own replay
@@ -803,6 +883,11 @@ def model_line(s):
         return line('c20_state_nest', state_translate.prog_to_val(_prog()), [[Word(n), v] for n, v in s['init']], _enc_block(s['block']))
     if k == 'monitor':
         return line('c20_echo', _monitor_before(s))
+    if k == 'obj_eval':
+        return line('obj_eval', gen.enc_object(s['obj']), s['tol'], s['params'], True)
+    if k == 'orient':
+        a, b = _orient_nets(s)
+        return line('c20_allclose', s['rtol'], s['atol'], a.reshape(-1).tolist(), b.reshape(-1).tolist())
     raise ValueError(k)
 
 
@@ -904,8 +989,33 @@ def _model_vertices_impl(sp, s):
         return len(m.catalogue.nodes(0))
 
 
+def _cp(params):
+    return [list(p) for p in params]
+
+
+def _orient_impl(sp, s):
+    a, b = _orient_nets(s)
+    oa = gen.mk_object(sp, s['obj'])
+    ob = gen.mk_object(sp, dict(s['obj'], cps=b.tolist()))
+    SM = _mod(sp, 'splinemodel')
+    with _tol(sp, controlpoint_relative_tolerance=s['rtol'], controlpoint_absolute_tolerance=s['atol']):
+        try:
+            o = SM.Orientation.compute(oa, ob)
+        except SM.OrientationError:
+            return False
+    ident = tuple(o.perm) == tuple(range(oa.pardim)) and not any(o.flip)
+    return True if ident else Word('non-identity-orientation')
+
+
 def run_impl(sp, s):
     k = s['kind']
+    if k == 'obj_eval':
+        o = gen.mk_object(sp, s['obj'])
+        with _tol(sp, knot_tolerance=s['tol']):
+            r = np.asarray(o.evaluate(*_cp(s['params'])), dtype=float)   # evaluate snaps list arguments in place
+        return [list(r.shape), r.reshape(-1).tolist()]
+    if k == 'orient':
+        return _orient_impl(sp, s)
     if k == 'state_nest':
         return _run_nest(sp, s)
     if k == 'monitor':
@@ -946,8 +1056,10 @@ def compare(s, iv, mv):
     k = s['kind']
     if k in EXACT_KINDS:
         return diff(iv, mv, rtol=0.0, atol=0.0)
-    if k == 'eval':
+    if k in ('eval', 'obj_eval'):
         return diff(iv, mv, rtol=RTOL, atol=ATOL)
+    if k == 'orient':
+        return diff(iv, mv, rtol=0.0, atol=0.0)
     if k == 'model_vertices':
         if isinstance(iv, Err) or not isinstance(mv, list):
             return 'impl %r vs model %r' % (iv, mv)
@@ -1203,8 +1315,53 @@ def _oracle_monitor(sp, s):
     return []
 
 
+def _oracle_obj_eval(sp, s):
+    if s['beyond']:
+        return []
+    fails = []
+    o = gen.mk_object(sp, s['obj'])
+    with _tol(sp, knot_tolerance=s['tol']):
+        try:
+            at_knots = np.asarray(o.evaluate(*_cp(s['knots'])), dtype=float)
+        except Exception as e:  # noqa: BLE001
+            return ['tol=%g: evaluate at in-domain knots/points %r raised %s' % (s['tol'], s['knots'], exc_kind(e))]
+        try:
+            got = np.asarray(o.evaluate(*_cp(s['params'])), dtype=float)
+        except Exception as e:  # noqa: BLE001
+            return ['tol=%g: evaluate(%r) raised %s although every parameter is within the tolerance of the in-domain knots %r'
+                    % (s['tol'], s['params'], exc_kind(e), s['knots'])]
+        if not _rel_close(got, at_knots):
+            fails.append('tol=%g: evaluate(%r) differs from evaluate at the knots %r' % (s['tol'], s['params'], s['knots']))
+        if all(b['order'] >= 2 for b in s['obj']['bases']) and not s['obj']['rational']:
+            d = tuple([1] + [0] * (len(s['obj']['bases']) - 1))
+            try:
+                d1 = np.asarray(o.derivative(*_cp(s['params']), d=d, above=False), dtype=float)
+                d2 = np.asarray(o.derivative(*_cp(s['knots']), d=d, above=False), dtype=float)
+                if not _rel_close(d1, d2):
+                    fails.append('tol=%g: derivative(%r, d=%r) differs from the derivative at the knots %r' % (s['tol'], s['params'], d, s['knots']))
+            except ValueError as e:
+                fails.append('tol=%g: derivative(%r) raised ValueError(%s) within the tolerance of in-domain knots' % (s['tol'], s['params'], e))
+    return fails
+
+
+def _oracle_orient(sp, s):
+    got = _orient_impl(sp, s)
+    want = abs(s['frac']) < 1
+    if got is True and want:
+        return []
+    if got is False and not want:
+        return []
+    return ['controlpoint tolerances rtol=%g atol=%g: control nets differing in one coordinate by %g*(atol+rtol*|x|) -> Orientation.compute %s, expected %s'
+            % (s['rtol'], s['atol'], s['frac'], {True: 'identity', False: 'OrientationError'}.get(got, got),
+               'identity' if want else 'OrientationError')]
+
+
 def oracle(sp, s):
     k = s['kind']
+    if k == 'obj_eval':
+        return _oracle_obj_eval(sp, s)
+    if k == 'orient':
+        return _oracle_orient(sp, s)
     if k == 'eval':
         return _oracle_eval(sp, s)
     if k == 'validate':
@@ -1314,6 +1471,20 @@ def tags(s, res):
         if _raise_inside_with(s['block']):
             out.append('nest:raise-in-with')
         out.append('nest:depth>=2' if _depth(s['block']) >= 2 else 'nest:depth=%d' % _depth(s['block']))
+    if k == 'obj_eval':
+        out += ['obj:pardim=%d' % len(s['obj']['bases']), 'obj:rational' if s['obj']['rational'] else 'obj:polynomial', _tol_tag(s['tol'])]
+        out.append('obj:beyond' if s['beyond'] else 'obj:within')
+        for b, ps in zip(s['obj']['bases'], s['params']):
+            info = gen.basis_info(b)
+            if info['k'] < 0 and not s['beyond'] and any(t < info['start'] or t > info['end'] for t in ps):
+                out.append('obj:within-outside-end')
+            if info['k'] >= 0:
+                out.append('obj:periodic-direction')
+        if res is not None and isinstance(res['impl'], Err):
+            out.append('obj:raised')
+    if k == 'orient':
+        out += ['orient:close' if abs(s['frac']) < 1 else 'orient:far', 'orient:rtol=0' if s['rtol'] == 0 else 'orient:rtol>0',
+                'orient:pardim=%d' % len(s['obj']['bases']), _tol_tag(s['atol'])]
     if k == 'monitor':
         c = s['call']
         out.append('monitor:' + c.split('.')[0])
